@@ -125,9 +125,14 @@ def r2(rep, prog):
     aw = family(prog, D + "atomic_write")
     pubs = meta_publishers(prog)
     mans = publish_sites(prog, MANAGED)
-    rep.check(len(pubs) == 1, R, "meta.json has a single publisher", "%s" % [short(p) for p in pubs],
+    # "one place" is one place in the source: a helper that was inlined into two callers (normalize.py) shows the same
+    # call site in both
+    def places(sites_):
+        return {prog.body(f).term(b).get("sp") for f, bl in sites_.items() for b in bl}
+    rep.check(len(places(pubs)) == 1, R, "meta.json has a single publisher", "%s" % [short(p) for p in pubs],
               "%d functions replace meta.json (%s): the commit point is no longer written in one place" % (len(pubs), sorted(short(p) for p in pubs)))
-    rep.check(len(mans) == 1, R, ".managed.json has a single publisher", "%s" % [short(p) for p in mans],
+    # (when the reference tree's publisher was inlined into its callers and deleted, they are the publishers)
+    rep.check(len(places(mans)) == 1 or set(mans) <= set(prog.gone.get("tantivy::directory::managed_directory::save_managed_paths", [])), R, ".managed.json has a single publisher", "%s" % [short(p) for p in mans],
               "%d functions replace .managed.json (%s)" % (len(mans), sorted(short(p) for p in mans)))
     # every atomic_write is one of these or the ManagedDirectory delegation
     for (b, bi, t) in prog.who_calls(aw):
@@ -291,8 +296,10 @@ def store_meta_after_publish(rep, prog, R):
     STORE = {SU + "SegmentUpdater::store_meta"}
     sites_ = prog.who_calls(STORE)
     rep.floor(R, "callers of store_meta", len({b.id for b, _, _ in sites_}), 1)
+    aw = family(prog, D + "atomic_write")
     for fid in sorted({b.id for b, _, _ in sites_}):
-        rule_precede(rep, prog, R, fid, PC, STORE, "the meta.json publisher", "store_meta (memory)", key="%s: meta.json published before store_meta (memory)" % short(fid))
+        # a caller of store_meta that replaces meta.json itself (the publisher written or inlined into it): the replace is the event
+        rule_precede(rep, prog, R, fid, (PC | aw) if fid in pubs else PC, STORE, "the meta.json publisher", "store_meta (memory)", key="%s: meta.json published before store_meta (memory)" % short(fid))
 
 
 def r7(rep, prog):
